@@ -17,7 +17,7 @@ from types import SimpleNamespace
 
 from ..alg import Poly, Q, MQ, Rat, is_zero
 from ..repo import AnalysisError, dotted, norm_text
-from ..xeval import Interp, XObj, Opaque, _NpAttr, _Bound
+from ..xeval import Interp, XObj, Opaque, _NpAttr, _Bound, XRaise
 from ..xarray import XArray
 from ..femchain import XFe, fe_hook_full
 
@@ -272,6 +272,7 @@ def rigid_rules(ctx):
 
 def run(ctx):
     stored_frame_rule(ctx)
+    fibre_derivative_rule(ctx)
     # a re-oriented member / material gives the re-oriented response also on a simulation that was already assembled: no memo keyed by an object whose axes it reads
     from ..shared import memo_rule as _memo_rule, cached_param_rule as _cached_param_rule
 
@@ -367,3 +368,68 @@ def stored_frame_rule(ctx):
             r.fail(fset.qualname + ".setter", "frame-not-orthonormal", fset.file, fset.lineno, "_Beam.yAxis.setter", f"{tag}: {problems[0]} (and {len(problems) - 1} more): the local transverse displacement and the bending stiffness are scaled by the length of the stored axis - the response of a member depends on its inclination")
         else:
             r.ok(f"{tag}: orthonormal frame")
+
+
+def fibre_derivative_rule(ctx):
+    """R10.9: the beam operators differentiate along the member: d/ds with s the abscissa along the fibre direction i that
+    the member frame P = [i, j, k] is built on (i = unit vector from the first to the second end).  The physical shape
+    function derivative the element class hands out (Get_dN_e_pg) is interpreted on a straight segment for the three
+    embeddings (on the x axis: inDim 1; in the plane: inDim 2; in space: inDim 3), drawn towards +x and towards -x:
+    sum_a dN_a/ds (X_a . i) must be 1 in all of them."""
+    from ..elems import ElemLib
+    from ..femchain import Chain
+
+    repo = ctx.repo
+    r = ctx.rule("R10.9", "member abscissa: the shape-function derivative used by the beam operators is taken along the fibre direction i of the member frame, for members drawn in either direction, on the x axis (inDim 1), in the plane and in space", min_instances=6)
+    lib = ElemLib(repo)
+    f = repo.method("EasyFEA.FEM._group_elem._GroupElem", "Get_dN_e_pg")
+    cases = {
+        "x-axis, towards +x": (1, [(Q(1), Q(0), Q(0)), (Q(4), Q(0), Q(0))]),
+        "x-axis, towards -x": (1, [(Q(4), Q(0), Q(0)), (Q(1), Q(0), Q(0))]),
+        "plane, (3,4) direction": (2, [(Q(0), Q(0), Q(0)), (Q(3), Q(4), Q(0))]),
+        "plane, (-3,-4) direction": (2, [(Q(3), Q(4), Q(0)), (Q(0), Q(0), Q(0))]),
+        "space, (2,-1,2) direction": (3, [(Q(0), Q(0), Q(0)), (Q(2), Q(-1), Q(2))]),
+        "space, (-2,1,-2) direction": (3, [(Q(2), Q(-1), Q(2)), (Q(0), Q(0), Q(0))]),
+    }
+
+    def normalize_hook(fn, args, kwargs):
+        fi = fn.finfo if isinstance(fn, _Bound) else fn if hasattr(fn, "node") and hasattr(fn, "qualname") else None
+        if fi is not None and getattr(fi, "name", "") == "Normalize":
+            v = XArray.from_nested(args[0])
+            if v.ndim == 2:
+                rows = []
+                for k in range(v.shape[0]):
+                    row = [v[k, d] for d in range(v.shape[1])]
+                    tot = sum((x * x for x in row), Q(0))
+                    nrm = MQ.sqrt(tot) if not is_zero(tot) else Q(1)
+                    rows.append([x / nrm for x in row])
+                return XArray.from_nested(rows)
+            tot = sum((x * x for x in v.data), Q(0))
+            nrm = MQ.sqrt(tot) if not is_zero(tot) else Q(1)
+            return XArray(v.shape, [x / nrm for x in v.data])
+        return fe_hook_full(fn, args, kwargs)
+
+    for label, (inDim, ends) in cases.items():
+        r.instance(fn=f.qualname)
+        ch = Chain(lib, "SEG2", symbolic_vertices=False, fe=True)
+        a = ch.obj.attrs
+        a["inDim"] = inDim
+        a["coord"] = XArray.from_nested([list(p) for p in ends])
+        ch.I.call_hook = normalize_hook
+        try:
+            dN = XArray.from_nested(ch.dN_e())
+        except XRaise as e:
+            r.fail(f.qualname, f"fibre-derivative:{label}", f.file, f.lineno, "_GroupElem.Get_dN_e_pg", f"{label}: raises {e}")
+            continue
+        d = [ends[1][k] - ends[0][k] for k in range(3)]
+        n2 = sum((x * x for x in d), Q(0))
+        nrm = MQ.sqrt(n2)
+        i = [x / nrm for x in d]
+        tot = Q(0)
+        for n_ in range(2):
+            s = sum((ends[n_][k] * i[k] for k in range(3)), Q(0))
+            tot = tot + dN[0, 0, 0, n_] * s
+        if is_zero(tot - 1):
+            r.ok(f"{label}: d/ds along the fibre")
+        else:
+            r.fail(f.qualname, f"fibre-derivative:{label}", f.file, f.lineno, "_GroupElem.Get_dN_e_pg", f"SEG2 {label}: sum_a dN_a (X_a . i) = {tot} instead of 1: the derivative is taken along the global x axis while the member frame (line.unitVector) points the other way; strain measures that are odd in the abscissa (Timoshenko shear v' - rz) get the wrong sign relative to the frame: a rigid rotation of the member stores shear energy")
